@@ -34,8 +34,10 @@ TOL = 1e-9
 
 
 def bounds(tier):
-    return dict(quick=dict(depth=dict(curve=3, surface=2, volume=2, container=3, sampling=3), seeds_per_class=1),
-                thorough=dict(depth=dict(curve=4, surface=3, volume=3, container=4, sampling=4), seeds_per_class=2))[tier]
+    return dict(quick=dict(depth=dict(curve=3, surface=2, volume=2, container=3, sampling=3,
+                                      dense=dict(curve=2, surface=2, volume=1)), seeds_per_class=1),
+                thorough=dict(depth=dict(curve=4, surface=3, volume=3, container=4, sampling=4,
+                                         dense=dict(curve=3, surface=2, volume=2)), seeds_per_class=2))[tier]
 
 
 # ----------------------------------------------------------------------------------------
@@ -68,6 +70,10 @@ def gen_cases(tier, seed):
                                     depth=b['depth'][kind]))
     # a curve that keeps its own knot range (normalize_kv=False): the domain is part of the derived state
     systems.append(dict(mode='bfs', system='spline', kind='curve', rational=False, seed_index=2, depth=b['depth']['curve']))
+    # densely sampled shapes (17 and 20 samples per direction, more than 256 points in total)
+    for kind, rational, si in (('curve', False, 1), ('curve', True, 0), ('surface', True, 0), ('surface', False, 0), ('volume', False, 0)):
+        systems.append(dict(mode='bfs', system='spline', kind=kind, rational=rational, seed_index=si, dense=True,
+                            depth=b['depth']['dense'][kind]))
     for kind in ('curve', 'surface'):
         systems.append(dict(mode='bfs', system='container', kind=kind, depth=b['depth']['container']))
     for kind, rational in (('surface', False), ('surface', True), ('volume', False)):
@@ -158,15 +164,19 @@ def read(obj, name):
 
 
 class SplineSystem(object):
-    def __init__(self, kind, rational, seed_index, seed=0, normalize_kv=True):
+    def __init__(self, kind, rational, seed_index, seed=0, normalize_kv=True, dense=False):
         self.kind, self.rational, self.seed = kind, rational, seed
+        # dense: sample sizes beyond the small ones (17 / 20 per direction, 289 / 343 points in total)
+        self.dense = dense
         self.desc = _seeds(kind, rational)[seed_index]
         self.pd = self.desc['pdim']
 
     # ---- construction --------------------------------------------------------------
     def initial(self):
         obj = S.build(self.desc, self.seed)
-        if self.pd == 1:
+        if self.dense:
+            obj.sample_size = 17 if self.pd < 3 else 7
+        elif self.pd == 1:
             obj.sample_size = 3
         elif self.pd == 2:
             obj.sample_size = 3
@@ -247,7 +257,10 @@ class SplineSystem(object):
         if pd == 2:
             ops.append(['ctrlpts2d', 'A'])
         if D['consistent']:
-            ops += [['sample_size', 3], ['sample_size', 4], ['delta', 0.5], ['delta', 0.34]]
+            if self.dense:
+                ops += [['sample_size', 17 if pd < 3 else 7], ['sample_size', 20 if pd < 3 else 8], ['delta', 0.0625 if pd < 3 else 0.125]]
+            else:
+                ops += [['sample_size', 3], ['sample_size', 4], ['delta', 0.5], ['delta', 0.34]]
             for a in range(pd):
                 ops += [['insert_knot', a, 0.5], ['remove_knot', a, 0.5]]
             ops += [['refine', 0]]
@@ -681,7 +694,7 @@ class ContainerSystem(object):
 
 def _system(case, seed):
     if case['system'] == 'spline':
-        return SplineSystem(case['kind'], case['rational'], case['seed_index'], seed)
+        return SplineSystem(case['kind'], case['rational'], case['seed_index'], seed, dense=bool(case.get('dense')))
     if case['system'] == 'sampling':
         return SamplingSystem(case['kind'], case['rational'], case['seed_index'], seed)
     return ContainerSystem(case['kind'], seed)
@@ -700,7 +713,8 @@ def run_case(case, ctx):
     budget = 200 if ctx.tier == 'quick' else 2000
     stats = X.bfs(sysm, ctx, case['depth'], deadline=time.time() + budget, prefix=case.get('prefix'),
                   expand=case.get('prefix') is not None,
-                  label='%s/%s/%s/%s' % (case['system'], case['kind'], case.get('rational'), case.get('seed_index')))
+                  label='%s/%s/%s/%s%s' % (case['system'], case['kind'], case.get('rational'), case.get('seed_index'),
+                                           '/dense' if case.get('dense') else ''))
     for k in ('states', 'transitions', 'merged', 'determinism_checks'):
         ctx.extra['bfs_' + k] += stats[k]
     if not stats['frontier_exhausted']:
